@@ -110,7 +110,7 @@ def build():
             ctx.check("no-other-qubit-is-rotated", others == [])
         return f
 
-    for variant in ("recv_keep", "recv_keep_with_info", "recv_keep_post", "recv_keep_post_nonseq", "recv_rsp", "recv_rsp_with_info"):
+    for variant in ("recv_keep", "recv_keep_with_info", "recv_keep_post", "recv_keep_post_nonseq", "recv_keep_then_post", "recv_post_then_keep", "recv_rsp", "recv_rsp_with_info"):
         for hw in ("generic", "nv"):
             for number in (1, 2, 3, 4):
                 for extra in (0, 1):
@@ -118,9 +118,11 @@ def build():
                         continue
                     if hw == "nv" and variant.startswith("recv_rsp"):
                         continue
+                    if "then" in variant and number < 2:
+                        continue
                     R.add(f"corrections[{variant}, {hw}, {number} pairs, {extra} other live]", kind="lia", samples=12, max_paths=2000,
                           thorough_only=(number >= 3))(mk_corr(variant, hw, number, True, extra))
-            R.add(f"no-corrections[{variant}, {hw}, expectation off]", kind="lia", samples=8, max_paths=400)(mk_corr(variant, hw, 2 if hw == "generic" else 1, False, 1))
+            R.add(f"no-corrections[{variant}, {hw}, expectation off]", kind="lia", samples=8, max_paths=400)(mk_corr(variant, hw, 2 if (hw == "generic" or "then" in variant) else 1, False, 1))
 
     # ------------------------------------------------------------------ Pauli table (exact)
     def pauli_table(ctx):
